@@ -207,6 +207,7 @@ macro_rules! stack_case { ($Buf:ident, $T:ty, $N:literal, $c:expr, $vals:expr, $
     if $c.has_w { let (p, w, c) = unsafe { (*bp).split_mut() }; session::<_, $T, true>(p, Some(w), c, $run, $src, $stop); } else { let (p, c) = unsafe { (*bp).split() }; session::<_, $T, false>(p, None, c, $run, $src, $stop); }
     drop(buf);
 }}; }
+#[cfg(not(feature = "vmem"))]
 macro_rules! uni_case { ($T:ty, $c:expr, $vals:expr, $run:expr, $src:expr, $stop:expr) => {
     match ($c.conc, $c.heap, $c.len) {
         (true, true, _) => heap_case!(ConcurrentHeapRB, $T, $c, $vals, $run, $src, $stop),
@@ -219,6 +220,14 @@ macro_rules! uni_case { ($T:ty, $c:expr, $vals:expr, $run:expr, $src:expr, $stop
         (false, false, _) => stack_case!(LocalStackRB, $T, 8, $c, $vals, $run, $src, $stop),
     }
 }; }
+// vmem: heap buffers only (whole pages)
+#[cfg(feature = "vmem")]
+macro_rules! uni_case { ($T:ty, $c:expr, $vals:expr, $run:expr, $src:expr, $stop:expr) => {
+    match $c.conc {
+        true => heap_case!(ConcurrentHeapRB, $T, $c, $vals, $run, $src, $stop),
+        false => heap_case!(LocalHeapRB, $T, $c, $vals, $run, $src, $stop),
+    }
+}; }
 
 fn run_case<'a>(c: &Case, mut src: Src, driver: Option<&'a mut Driver>, stop: bool) -> Run<'a> {
     tok::reset_ledger();
@@ -228,7 +237,7 @@ fn run_case<'a>(c: &Case, mut src: Src, driver: Option<&'a mut Driver>, stop: bo
     let oracle = Oracle::new(vals.clone(), c.has_w, c.heap, c.owned);
     let mut run = Run { oracle, held: [None, None, None], fails: vec![], executed: vec![], driver, owned: c.owned, steps: 0, pend: 0, ready: 0, not_woken: vec![], ops: BTreeMap::new() };
     if let Some(d) = run.driver.as_mut() {
-        let a = d.ask(&format!("init {} {} {} {} {}", len, c.has_w as u8, c.heap as u8, c.owned as u8, vals.iter().map(|v| v.to_string()).collect::<Vec<_>>().join(" ")));
+        let a = d.ask(&format!("{} {} {} {} {} {}", if cfg!(feature = "vmem") { "initvm" } else { "init" }, len, c.has_w as u8, c.heap as u8, c.owned as u8, vals.iter().map(|v| v.to_string()).collect::<Vec<_>>().join(" ")));
         if !a.starts_with("ok ") { run.fails.push(Fail { kind: "model", tags: vec![], step: 0, line: "init".into(), detail: a }); }
     }
     { let r = &mut run; let s = &mut src; if c.owned { uni_case!(Tok, c, vals, r, s, stop) } else { uni_case!(u64, c, vals, r, s, stop) } }
@@ -290,8 +299,8 @@ pub fn main() {
     } else {
         let mut driver = dp.as_ref().map(|p| Driver::spawn(p).expect("driver"));
         for _ in 0..cases {
-            let heap = rng.chance(1, 2);
-            let c = Case { conc: rng.chance(1, 2), heap, has_w: rng.chance(1, 2), len: if heap { *rng.pick(&[2usize, 3, 4, 5, 7, 9]) } else { *rng.pick(&[2usize, 3, 4, 5, 8]) }, owned: pr.owned, lines: vec![] };
+            let heap = cfg!(feature = "vmem") || rng.chance(1, 2);
+            let c = Case { conc: rng.chance(1, 2), heap, has_w: rng.chance(1, 2), len: if cfg!(feature = "vmem") { 4096 } else if heap { *rng.pick(&[2usize, 3, 4, 5, 7, 9]) } else { *rng.pick(&[2usize, 3, 4, 5, 8]) }, owned: pr.owned, lines: vec![] };
             let n = rng.range(pr.max_ops / 3, pr.max_ops);
             let r = run_case(&c, Src::Gen { rng: &mut rng, pr: &pr, gen: Gen::new(), remaining: n }, driver.as_mut(), false);
             ncases += 1; steps += r.steps; pend += r.pend; ready += r.ready;
